@@ -244,7 +244,7 @@ Fixpoint simb (n : nat) (g1 : graph) (o1 : obj) (g2 : graph) (o2 : obj) : bool :
 (* optimizeContentStreamUsage (optimize.go): the duplicate test for page content streams,
    used when Configuration.OptimizeDuplicateContentStreams is set: a cached stream sd1 with
    the same StreamLength as the new stream sd is a duplicate when
-   model.EqualObjects(*sd, *sd1, ctx.XRefTable, nil) says (true, nil); an error is returned. *)
+   model.EqualObjects(sd, sd1, xRefTable, nil) (both dereferenced) says (true, nil); an error is returned. *)
 Definition contentStreamDup (fuel : nat) (g : graph) (cached new : obj) : cmp :=
   match cached, new with
   | OStream _ r1, OStream _ r2 =>
